@@ -181,6 +181,34 @@ class FPV:
         return f"FPV({self.value:f}, {self.sort})"
 
 
+def _int_to_float(n: int, rm: RM, sort: FSort) -> float:
+    """
+    The integer `n` rounded once, in the mode `rm`, to the precision of `sort`.  The result has no more significant
+    bits than the sort holds, so neither float() nor the packing done by FPV rounds it again (float(n) rounds to
+    double, to nearest; packing that as a single rounds a second time: 2**62 + 2**38 + 1 came out as 2**62).
+    """
+    magnitude = abs(n)
+    shift = magnitude.bit_length() - sort.mantissa
+    if shift <= 0:
+        return float(n)
+    kept, rest = magnitude >> shift, magnitude & ((1 << shift) - 1)
+    half = 1 << (shift - 1)
+    if rm == RM.RM_NearestTiesEven:
+        up = rest > half or (rest == half and kept & 1 == 1)
+    elif rm == RM.RM_NearestTiesAwayFromZero:
+        up = rest >= half
+    elif rm == RM.RM_TowardsZero:
+        up = False
+    elif rm == RM.RM_TowardsPositiveInf:
+        up = rest != 0 and n > 0
+    elif rm == RM.RM_TowardsNegativeInf:
+        up = rest != 0 and n < 0
+    else:
+        raise ClaripyOperationError(f"unknown rounding mode {rm}")
+    magnitude = (kept + (1 if up else 0)) << shift
+    return float(-magnitude if n < 0 else magnitude)
+
+
 def fpToFP(a1, a2, a3=None):
     """
     Returns a FP AST and has three signatures:
@@ -217,17 +245,17 @@ def fpToFP(a1, a2, a3=None):
     if isinstance(a1, RM) and isinstance(a2, FPV) and isinstance(a3, FSort):
         return FPV(a2.value, a3)
     if isinstance(a1, RM) and isinstance(a2, BVV) and isinstance(a3, FSort):
-        return FPV(float(a2.signed), a3)
+        return FPV(_int_to_float(a2.signed, a1, a3), a3)
     raise ClaripyOperationError("unknown types passed to fpToFP")
 
 
-def fpToFPUnsigned(_rm, thing, sort):
+def fpToFPUnsigned(rm, thing, sort):
     """
     Returns a FP AST whose value is the same as the unsigned BVV `thing` and
     whose sort is `sort`.
     """
     # thing is a BVV
-    return FPV(float(thing.value), sort)
+    return FPV(_int_to_float(thing.value, rm, sort), sort)
 
 
 def fpToIEEEBV(fpv):
